@@ -116,7 +116,12 @@ def gen_case(rng, kind, subtype):
     s, tx, ty = A.fit_transform(rng, kind, els, subtype, hi - lo)
     tx -= lo * s
     ty -= lo * s
-    if any(isinstance(v, float) for e in els for v in gg.coords_of(kind, e)):
+    down = 0
+    if subtype == "float64" and rng.random() < 0.25:
+        # exact dyadic down-scaling instead of the stretch: tiny but definite lengths and areas
+        down = int(rng.integers(6, 20))
+        s, tx, ty = 2.0 ** -down, 0.0, 0.0
+    if down or any(isinstance(v, float) for e in els for v in gg.coords_of(kind, e)):
         tr = lambda e: _tr_float(e, kind, s, tx, ty)                # noqa: E731
     else:
         tr = lambda e: gg.transform(e, kind, s, tx, ty)             # noqa: E731
